@@ -65,12 +65,12 @@ type Req struct {
 
 // Case is one generated case of stage "pmc".
 type Case struct {
-	GPUs         int          `json:"gpus"`
-	PageSize     int          `json:"page_size"`
-	PagesPerGPU  int          `json:"pages_per_gpu"`
+	GPUs        int `json:"gpus"`
+	PageSize    int `json:"page_size"`
+	PagesPerGPU int `json:"pages_per_gpu"`
 	// Skew (a multiple of the 64-byte transfer unit, smaller than the page size): every page
 	// starts Skew bytes after a multiple of the page size (an 8 KiB page on an odd 4 KiB frame)
-	Skew int `json:"skew,omitempty"`
+	Skew         int          `json:"skew,omitempty"`
 	Mem          []MemCfg     `json:"mem"`
 	Ctrl         []CtrlCfg    `json:"ctrl"`
 	Pages        [][]PageInit `json:"pages"`
